@@ -339,11 +339,16 @@ def build(tier, seed):
                 stubs={"Dev": (STUB_DEV, {"tracker": NoneT}), "BareDev": (STUB_DEV, {})},
                 extra_builtins={"user_callback": cb_model, "hasattr": b_hasattr})
 
+    # a circuit's len() is the number of its operations and measurements: a symbolic integer >= 0, in general != 1 -- a wrapper that
+    # counts len(circuits) without normalising a bare circuit to a one-element batch records that number
     STUB_QS = ("class QuantumScript:\n"
                "    @property\n"
                "    def specs(self):\n"
-               "        return {'resources': self.res}\n")
-    QS_FIELDS = {"ident": Label, "shots": Bool, "res": Label, "nexec": Int, "nshots": Int}
+               "        return {'resources': self.res}\n"
+               "\n"
+               "    def __len__(self):\n"
+               "        return self.nlen\n")
+    QS_FIELDS = {"ident": Label, "shots": Bool, "res": Label, "nexec": Int, "nshots": Int, "nlen": Int}
     STUB_DEVICE = "class Device:\n    pass\n"
 
     def untracked(it, args, kw):
@@ -451,16 +456,15 @@ def build(tier, seed):
             return FakeDev(copy.deepcopy(self.tracker, memo), self._ret)
 
     def real_circuit(f):
-        from pennylane.tape import QuantumScript
-
-        class FakeQS(QuantumScript):
-            shots = property(lambda s: s._fshots)
-            specs = property(lambda s: {"resources": s._res})
-
-            def __deepcopy__(self, memo):
-                return self
-        c = object.__new__(FakeQS)
-        c._fshots, c._res, c._nexec, c._nshots, c._ident = bool(f.get("shots")), f.get("res"), f.get("nexec"), f.get("nshots"), f.get("ident")
+        """a REAL QuantumScript with len(.) == the model's number of operations and measurements, finite shots iff the model's flag is
+        set; the abstract per-circuit executions / shots of the model ride along as attributes (read by the harness' stand-in for
+        get_num_shots_and_executions)"""
+        import pennylane as qp
+        n = max(0, int(f.get("nlen") or 0))
+        meas = [qp.expval(qp.Z(0))] if n >= 1 else []
+        ops = [qp.RX(0.1 * (j + 1), wires=j % 2) for j in range(n - len(meas))]
+        c = qp.tape.QuantumScript(ops, meas, shots=(10 if f.get("shots") else None))
+        c._nexec, c._nshots, c._ident = f.get("nexec"), f.get("nshots"), f.get("ident")
         return c
 
     w_t.stub_realize = {"Tracker": real_tracker}
@@ -653,7 +657,7 @@ def build(tier, seed):
 
     def circuits_list(c):
         """python list of the circuits of a concrete-shape argument (single circuit / tuple / list)"""
-        if isinstance(c, Rec) or type(c).__name__ == "FakeQS":
+        if isinstance(c, Rec) or type(c).__name__ == "QuantumScript":
             return [c]
         return list(c.items) if isinstance(c, PyList) else list(c)
 
@@ -664,10 +668,10 @@ def build(tier, seed):
         return c.f["nshots"] if is_sym(c) else c._nshots
 
     def cOn(c):
-        return c.f["shots"] if is_sym(c) else bool(c._fshots)
+        return c.f["shots"] if is_sym(c) else bool(c.shots)
 
     def cRes(c):
-        return c.f["res"] if is_sym(c) else c._res
+        return c.f["res"] if is_sym(c) else c.specs["resources"]
 
     def called_once(o, n, names):
         """the wrapped method was called exactly once with (self, <the wrapper's arguments in order>) and no keyword"""
@@ -705,7 +709,7 @@ def build(tier, seed):
     def circ_t(shape):
         """shape: 'single' | ('tuple', n) | ('list', n) | 'seq'"""
         if shape == "single":
-            return QS
+            return T("rec", "QuantumScript", where=lambda v: v.f["nlen"] >= 0)
         if shape == "seq":
             return SeqT(QS, tuple=True)
         return TupleT(*[QS] * shape[1]) if shape[0] == "tuple" else ListT(QS, shape[1])
@@ -723,7 +727,7 @@ def build(tier, seed):
     # ---- execute -------------------------------------------------------------------------------------------------------------
     def exec_updates(o, ret):
         cs = circuits_list(o.circuits)
-        single = isinstance(o.circuits, Rec) or type(o.circuits).__name__ == "FakeQS"
+        single = isinstance(o.circuits, Rec) or type(o.circuits).__name__ == "QuantumScript"
         rs = [ret] if single else list(ret)
         ups = [[("batches", 1, True)]]
         for c, r_ in zip(cs, rs):
@@ -753,7 +757,7 @@ def build(tier, seed):
     # ---- wrappers without a loop: any batch length (symbolic) ----------------------------------------------------------------
     def simple_updates(batch_key, count_key):
         def ups(o):
-            single = isinstance(o.circuits, Rec) or type(o.circuits).__name__ == "FakeQS"
+            single = isinstance(o.circuits, Rec) or type(o.circuits).__name__ == "QuantumScript"
             cnt = 1 if single else n_of(o)
             return [[(batch_key, 1, True), (count_key, cnt, True)]]
         return ups
